@@ -63,6 +63,8 @@ Iter(o, r) ==
     /\ Step([op |-> "iter", o |-> o, r |-> r, a |-> 2])
     /\ UNCHANGED cls
 
+\* Clone: the trait has two methods - clone() and clone_from() (in place, into an existing value of the same type); the harness
+\* uses clone_from whenever the slot o already holds a value of the type of `from`, so both realise this one action
 Clone(o, from)   == o # from /\ cls' = [cls EXCEPT ![o] = cls[from]] /\ Step([op |-> "clone", o |-> o, r |-> 0, a |-> from]) /\ UNCHANGED <<st, seen, revisits>>
 Rebuild(o, from) == o # from /\ cls' = [cls EXCEPT ![o] = cls[from]] /\ Step([op |-> "rebuild", o |-> o, r |-> 0, a |-> from]) /\ UNCHANGED <<st, seen, revisits>>
 RoundTrip(o, from) == WithSerde /\ cls' = [cls EXCEPT ![o] = cls[from]] /\ Step([op |-> "roundtrip", o |-> o, r |-> 0, a |-> from]) /\ UNCHANGED <<st, seen, revisits>>
